@@ -113,6 +113,7 @@ type Exec struct {
 	userState map[string]Value
 	lockWaiters []*G
 	findKey string
+	shared  *sync.Map
 	initTopInstr ssa.Instruction
 	initTopIP int
 	initTopBlock *ssa.BasicBlock
@@ -365,14 +366,14 @@ type RunResult struct {
 }
 
 // runPath executes one path of the harness given a decision prefix.
-func runPath(prog *Program, cfg *Config, sol *Solver, harness string, prefix []Decision) (res RunResult) {
+func runPath(prog *Program, cfg *Config, sol *Solver, harness string, prefix []Decision, shared *sync.Map) (res RunResult) {
 	e := &Exec{
 		prog: prog, cfg: cfg, tc: NewTermCtx(), sol: sol, harness: harness, prefix: prefix,
 		waiters: map[*ChanV][]*waiter{}, globals: map[*ssa.Global]*Cell{}, initDone: map[*ssa.Package]bool{},
 		inputCnt: map[string]int{}, funcs: map[string]int{}, reached: map[string]bool{},
 		mutexes: map[*Cell]*mutexState{}, wgs: map[*Cell]*wgState{}, atomVals: map[*Cell]Value{},
 		preempted: map[syncKey]bool{}, races: map[string]bool{}, lockEdges: map[string]bool{},
-		userState: map[string]Value{},
+		userState: map[string]Value{}, shared: shared,
 	}
 	sol.Reset()
 	s0, u0, k0, t0 := sol.nSat, sol.nUnsat, sol.nUnknown, sol.solveTime
@@ -493,6 +494,7 @@ func explore(prog *Program, cfg *Config, harness string) *HarnessResult {
 	inconSeen := map[string]bool{}
 	findSeen := map[string]bool{}
 	labelTimes := map[string]time.Duration{}
+	shared := &sync.Map{}
 	var wg sync.WaitGroup
 	for w := 0; w < cfg.Workers; w++ {
 		wg.Add(1)
@@ -532,7 +534,7 @@ func explore(prog *Program, cfg *Config, harness string) *HarnessResult {
 				active++
 				mu.Unlock()
 
-				r := runPath(prog, cfg, sol, harness, p)
+				r := runPath(prog, cfg, sol, harness, p, shared)
 
 				mu.Lock()
 				active--
